@@ -695,6 +695,14 @@ func (e *SpecEnv) evalCall(n *ast.CallExpr) Val {
 			specFail("old() not available here")
 		}
 		return e.inState(e.old).eval(n.Args[0])
+	case "sameArray":
+		// sameArray(a, b): the two slices share their backing array
+		argn(2)
+		x, y := e.eval(n.Args[0]), e.eval(n.Args[1])
+		if x.t == nil || y.t == nil || x.t.sort != SSlice || y.t.sort != SSlice {
+			specFail("sameArray: two slices expected")
+		}
+		return Val{t: b.Eq(w.sbase(x.t), w.sbase(y.t)), typ: boolT}
 	case "setEmpty":
 		argn(0)
 		return Val{t: b.ConstArray(SArray(SBV(64), SBool), b.False()), typ: pageSetType}
@@ -774,6 +782,18 @@ func (e *SpecEnv) evalCall(n *ast.CallExpr) Val {
 		}
 		it := e.ranges[idx]
 		return Val{t: b.Select(e.cur.heap(e.cx, it.visHeap), it.vis)}
+	case "produced":
+		// produced(n): number of keys the n-th map iteration of the function has produced so far
+		argn(1)
+		kv := e.eval(n.Args[0])
+		if kv.konst == nil {
+			specFail("produced(n): constant index required")
+		}
+		idx, _ := constant.Int64Val(kv.konst)
+		if int(idx) >= len(e.ranges) || e.ranges[idx].cnt == nil {
+			specFail("produced(%d): no such map iteration here", idx)
+		}
+		return Val{t: b.Select(e.cur.heap(e.cx, w.heapName(SBV(64))), e.ranges[idx].cnt), typ: types.Typ[types.Int]}
 	case "iter":
 		argn(1)
 		if e.iter == nil {
